@@ -186,6 +186,32 @@ class Tag(HostModel):
         r = self.find_all(name, attrs, recursive, string, 1, **kw)
         return r[0] if r else None
 
+    def find_all_previous(self, name=None, attrs=None, string=None, limit=None, **kw):
+        """the elements that START before this one in the document (ancestors included), nearest first"""
+        if string is not None:
+            raise ModelError("find_previous(string=...) is outside the model")
+        a = dict(attrs or {})
+        if "class_" in kw:
+            a["class"] = kw.pop("class_")
+        a.update(kw)
+        root = self
+        while root.parent is not None:
+            root = root.parent
+        before = []
+        for t in [root] + list(root._descendants()):
+            if t is self:
+                break
+            before.append(t)
+        out = [t for t in reversed(before) if t.name is not None and t._matches(name, a)]
+        return out[:limit] if limit else out
+
+    def find_previous(self, name=None, attrs=None, string=None, **kw):
+        r = self.find_all_previous(name, attrs, string, 1, **kw)
+        return r[0] if r else None
+
+    findPrevious = find_previous
+    findAllPrevious = find_all_previous
+
     findChildren = find_all
     findAll = find_all
     findChild = find
